@@ -79,7 +79,7 @@ def mk_owner(kind, mode, raising):
     """kind: any | int | event | expression"""
     logs = {"static": [], "otc": [], "observe": [], "other": []}
     md = {"comparison_mode": mode}
-    if kind in ("any", "any-magic"):
+    if kind in ("any", "any-magic", "any-subdefault", "any-second-use"):
         tr = Any(**md)
     elif kind == "int":
         tr = Int(**md)
@@ -90,7 +90,27 @@ def mk_owner(kind, mode, raising):
     else:
         tr = Expression(**md)
 
-    if kind == "any-magic":
+    if kind == "any-subdefault":
+        # the definition lives in a base class; the class in use only gives the attribute another default (x = <value>)
+        class Base0(HasTraits):
+            x = tr
+
+            def _x_changed(self, old, new):
+                logs["static"].append((old, new))
+
+        class Owner(Base0):
+            x = 2.5
+    elif kind == "any-second-use":
+        # ONE definition object used for two attributes: the one under test is the second CTrait made from it
+        class Other(HasTraits):
+            y = tr
+
+        class Owner(HasTraits):
+            x = tr
+
+            def _x_changed(self, old, new):
+                logs["static"].append((old, new))
+    elif kind == "any-magic":
         # an @observe-decorated method that happens to carry a magic name, inherited by the class in use: it is an observe
         # handler (one TraitChangeEvent per change), not ALSO a static handler
         _missing = object()
@@ -427,6 +447,12 @@ def obligations(tier, build):
                                   bounds={"history": list(seq), "comparison mode": mode.name,
                                           "quiet update": "trait_setq / trait_set(trait_change_notify=False), natively"},
                                   leverage="equality of payloads", max_paths=2000))
+        for owner_ in ("any-subdefault", "any-second-use"):
+            for seq in [("int", "int"), ("int", "same"), ("int", "float"), ("none", "none")]:
+                obs.append(Obligation("%s/%s/%s" % (owner_, mode.name, "-".join(seq)), make_harness(owner_, mode, seq, None, False), stubs=STUBS,
+                                      bounds={"history": list(seq), "comparison mode": mode.name,
+                                              "owner": "definition inherited with a new default (x = 5) / second use of one definition object"},
+                                      leverage="equality of payloads", fast_fp=True, max_paths=2000))
         for seq in [("int", "int"), ("int", "same"), ("none", "int")]:
             obs.append(Obligation("any-magic/%s/%s" % (mode.name, "-".join(seq)), make_harness("any-magic", mode, seq, None, False), stubs=STUBS,
                                   bounds={"history": list(seq), "comparison mode": mode.name,
